@@ -26,9 +26,14 @@ META = dict(
           "AggregateBase.coupling is proved, for aggregates of two-level molecules with up to four molecules and every pair of "
           "electronic states up to two excitations (all couplings symbolic), to return the resonance coupling J[k,l] exactly "
           "when the two states differ by moving one excitation from molecule k to molecule l, and zero otherwise, in "
-          "particular zero between bands."),
-    note=("the number of molecules is enumerated (2-4); AggregateBase.build, the state generators, the transition-dipole "
-          "operator, relabelling invariance of the spectrum and independence of the units used for input are not decided "
+          "particular zero between bands. For the same enumerations AggregateBase._get_exindx is proved to return the "
+          "molecule on which two states of neighbouring bands differ (and -1 in every other case), "
+          "AggregateBase.transition_dipole to return that molecule's 0->1 dipole times the overlap of the vibrational "
+          "states (the number 0.0 when no single molecule carries the transition), and ElectronicState.energy to be the "
+          "sum of the occupied molecular levels plus the vibrational quanta (two or three molecules, up to two modes, "
+          "symbolic level energies, frequencies and occupation numbers)."),
+    note=("the number of molecules is enumerated (2-4); AggregateBase.build (assembly of the matrices from these elements) "
+          "and the state generators, relabelling invariance of the spectrum and independence of the units used for input are not decided "
           "(generator functions and growing nested lists are outside the executor); sqrt is uninterpreted with "
           "sqrt(x)^2 = x and sqrt(x) > 0 for x > 0."),
     technique="VCs from the real AST (small concrete aggregates, symbolic values), z3 non-linear real arithmetic",
@@ -190,6 +195,78 @@ def contracts(reg):
                          ensures=[("resonance-coupling-exactly-for-one-moved-excitation", "result == expected_coupling(J)")],
                          frame=dict(roots=["self", "state1", "state2"], allow=[])))
 
+    # ---- which molecule carries the transition between two states, and the transition dipole element -----------------------------------
+    def exindx_of(s1, s2):
+        """index of the only molecule whose excitation number differs (states in neighbouring bands), else -1"""
+        if abs(sum(s1) - sum(s2)) not in (1, 2):
+            return -1
+        diff = [i for i in range(len(s1)) if s1[i] != s2[i]]
+        return diff[0] if len(diff) == 1 else -1
+    T["expected_exindx"] = Builtin("spec:expected_exindx", lambda ex, a, k, l: exindx_of(*ex.sig_pair))
+
+    def setup_exindx(S, nmol):
+        d = setup_vib(S, nmol)
+        D = S.array("D", (nmol, 3), "real")
+        me = d["self"]
+        def get_dipole(ex, a, k, l):
+            if (a[1], a[2]) != (0, 1):
+                raise V.Unsupported("get_dipole of another transition than 0 -> 1")
+            return V.lam_array((3,), "real", lambda idx: D.get([a[0], idx[0]]))
+        me.fields["get_dipole"] = Builtin("self.get_dipole", get_dipole)
+        d["D"] = D
+        return d
+
+    def dip_ok(ex, a, k, l):
+        """result == D[k,:]*fc for the molecule k carrying the transition, the number 0.0 when there is none"""
+        res, D, fc = a
+        kx = exindx_of(*ex.sig_pair)
+        if kx < 0:
+            return (not isinstance(res, SymArr)) and V.compare("==", res, 0) is True
+        if not isinstance(res, SymArr):
+            return False
+        return z3.And(*[V.z3bool(V.compare("==", res.get([i]), V.arith("*", D.get([kx, i]), fc))) for i in range(3)])
+    T["transition_dipole_is"] = Builtin("spec:transition_dipole_is", dip_ok)
+    for nmol in (2, 3, 4):
+        reg.add(Contract(AB + "AggregateBase._get_exindx#%d-molecules" % nmol, setup=(lambda S, n=nmol: setup_exindx(S, n)),
+                         requires=[], ensures=[("molecule-carrying-the-transition", "result == expected_exindx()")],
+                         frame=dict(roots=["self", "state1", "state2"], allow=[])))
+        reg.add(Contract(AB + "AggregateBase.transition_dipole#%d-molecules" % nmol, setup=(lambda S, n=nmol: setup_exindx(S, n)),
+                         requires=[],
+                         ensures=[("molecular-transition-dipole-times-the-overlap-of-the-vibrational-states",
+                                   "transition_dipole_is(result, D, fc)")]))
+
+    # ---- energy of an aggregate state: molecular energies of the occupied levels plus vibrational quanta -------------------------------
+    def setup_energy(S, nmol, nmodes):
+        internal_units_manager(S)
+        sts = states(nmol, 2)
+        sig = sts[S.ex.decide(len(sts))]
+        E = S.array("E", (nmol, 3), "real")
+        om = [S.real("omega_%d" % k) for k in range(nmodes)]
+        mons = [S.obj("Molecule(stub)", label="mol%d" % k,
+                      elenergies=V.lam_array((3,), "real", lambda idx, k=k: E.get([k, idx[0]]))) for k in range(nmol)]
+        agg = S.obj("Aggregate(stub)", label="agg", monomers=mons, nmono=nmol)
+        modes = [S.obj("SubMode(stub)", label="mode%d" % k, omega=om[k]) for k in range(nmodes)]
+        me = S.obj(AS + "ElectronicState", label="self", elsignature=sig, aggregate=agg, vibmodes=modes, vsiglength=nmodes,
+                   band=sum(sig))
+        vs = tuple(S.int("v_%d" % k) for k in range(nmodes))
+        S.ex.energy_case = (sig, E, om, vs)
+        return dict(self=me, vsig=(vs if nmodes else None), E=E)
+
+    def energy_ok(ex, a, k, l):
+        sig, E, om, vs = ex.energy_case
+        tot = z3.RealVal(0)
+        for k_, n_ in enumerate(sig):
+            tot = tot + V.z3real(E.get([k_, n_]))
+        for o_, v_ in zip(om, vs):
+            tot = tot + z3.ToReal(v_) * o_
+        return V.compare("==", a[0], tot)
+    T["state_energy_is"] = Builtin("spec:state_energy_is", energy_ok)
+    for nmol in (2, 3):
+        for nmodes in (0, 1, 2):
+            reg.add(Contract(AS + "ElectronicState.energy#%d-molecules-%d-modes" % (nmol, nmodes),
+                             setup=(lambda S, n=nmol, m=nmodes: setup_energy(S, n, m)), requires=[],
+                             ensures=[("sum-of-occupied-molecular-levels-and-vibrational-quanta", "state_energy_is(result)")]))
+
 
 def _frame_of(ex, relpath):
     from qvc.symex import Frame
@@ -204,15 +281,18 @@ def plan(ctx):
                   [AB + "AggregateBase.set_coupling_by_dipole_dipole#%d-molecules-%s-positions" % (n, t)
                    for n in (2, 3) for t in ("real", "integer")] + \
                   [AB + "AggregateBase.coupling#electronic-%d-molecules" % n for n in (2, 3, 4)] + \
-                  [AB + "AggregateBase.coupling#vibronic-%d-molecules" % n for n in (2, 3, 4)]
+                  [AB + "AggregateBase.coupling#vibronic-%d-molecules" % n for n in (2, 3, 4)] + \
+                  [AB + "AggregateBase._get_exindx#%d-molecules" % n for n in (2, 3, 4)] + \
+                  [AB + "AggregateBase.transition_dipole#%d-molecules" % n for n in (2, 3, 4)] + \
+                  [AS + "ElectronicState.energy#%d-molecules-%d-modes" % (n, m) for n in (2, 3) for m in (0, 1, 2)]
     x = z3.Real("x")
     sq = lambda t: V.ufun("sqrt", t)        # noqa: E731
     p.extra_axioms = list(V.pi_axioms()) + [z3.ForAll([x], z3.Implies(x >= 0, sq(x) * sq(x) == x), patterns=[sq(x)]),
                                             z3.ForAll([x], z3.Implies(x > 0, sq(x) > 0), patterns=[sq(x)])]
     p.level = "other"
     p.oracles = ["native/oracle_C03.py"]
-    p.not_decided = ["AggregateBase.build: band ordering of states, diagonal energies, absence of inter-band elements, "
-                     "transition-dipole operator (generator functions / nested lists outside the executor)",
+    p.not_decided = ["AggregateBase.build: band ordering of states and the assembly of Hamiltonian and transition-dipole "
+                     "operator from the state-pair elements proved here (generator functions / nested lists outside the executor)",
                      "relabelling invariance of spectrum and dipole strengths; independence of the input units",
                      "aggregates with more than four molecules or with molecules of more than two levels"]
     return p
